@@ -350,7 +350,7 @@ pub fn run(ctx: &Ctx) -> i32 {
     reports.push(exhaustive_suite(ctx, "predictor_x_differential", 128, &pred_diff_item));
     reports.push(exhaustive_suite(ctx, "four_vector_sums", 253 * 2, &four_sum_item));
     reports.push(exhaustive_suite(ctx, "neighbour_configurations", 27 * 5 * 12, &neighbour_item));
-    let cases = ctx.tier.pick(100_000u64, 500_000u64);
+    let cases = ctx.tier.pick(100_000u64, 1_500_000u64);
     reports.push(tape_suite(ctx, "random_vector_fields", cases, 1200, &random_field_case));
     let exhaustive = reports.iter().skip(1).take(3).all(|r| r.exhaustive);
     finish(
